@@ -31,6 +31,7 @@ PeptidesFails(ev) ==
     \cup (IF ev.strsOnly # [ q \in 1..Len(ev.items) |-> ev.items[q].text ] THEN {"str_return_type_differs"} ELSE {})
     \cup (IF ev.annTexts # [ q \in 1..Len(ev.items) |-> ev.items[q].text ] THEN {"annotation_return_type_differs"} ELSE {})
     \cup (IF ev.strSpanTexts # [ q \in 1..Len(ev.items) |-> ev.items[q].text ] THEN {"str_span_return_type_differs"} ELSE {})
+    \cup (IF ~ev.independent THEN {"editing_a_returned_peptide_changed_the_protein_or_other_peptides"} ELSE {})
     (* the spans are those the rule defines (C06's definition), so that "the same peptides" is anchored *)
     \cup (IF ev.checkSpans /\ { ev.items[q].span : q \in 1..Len(ev.items) }
                               # DigestSpans(A.seq, <<RuleOf(ev.rule)>>, ev.mc, ev.semi, NoBound, NoBound)
